@@ -265,6 +265,23 @@ theorem c04_x_findLIDs_shape :
 theorem c04_x_fetch_structure :
     fracFetchRecovers = true ∧ fetchDocsCalls = ["groupIDsByFraction", "f.fetchDocsAsync", "make"] := by decide
 
+/-- **the fraction list handed to `FetchDocs` is never modified**: the batch loader passes the SAME list `d.fracs` to
+every chunk (`c04_x_batchLoader_shape`); `groupIDsByFraction` compacts candidates in place, but only inside the list
+`FilterInRange` returned, and `FilterInRange` always builds a fresh list (`make`, never the receiver or a reslice of
+it).  This is what lets `fetchStream` (`c04_stream_eq_spec`) use one immutable `fracs` for all chunks. -/
+theorem c04_x_fraction_list_not_mutated :
+    filterInRangeStmts = ["res := make(List, 0)",
+      "for f := range l { if f.IsIntersecting(from, to) { res = append(res, f) } }", "return res"] ∧
+    groupIDsListWrites = ["fracsOut := fracsIn.FilterInRange(minMID, maxMID)", "fracsOut[l] = f",
+      "return fracsOut[:l], idsByFracs"] := by decide
+
+/-- `sortIDs` sorts a copy of the request and takes the time range from the two ends of the SORTED list, as
+`SV.Fetch.sortIDs` does (`sortIDs_spec`: the range covers every requested ID) -/
+theorem c04_x_sortIDs_shape :
+    sortIDsStmts = ["last := len(idsOrig) - 1", "ids := append(seq.IDSources{}, idsOrig...)",
+      "if seq.Less(ids[0].ID, ids[last].ID)", "sort.Sort(ids)", "return ids, ids[0].ID.MID, ids[last].ID.MID",
+      "sort.Sort(sort.Reverse(ids))", "return ids, ids[last].ID.MID, ids[0].ID.MID"] := by decide
+
 /-- position packing at the extracted `docOffsetBits`: every (block, offset) the writer can produce is read back,
 and never collides with `DocPosNotFound` -/
 theorem c04_x_docpos_roundtrip (block off : Nat) (ho : off < 2 ^ docOffsetBits) (hb : block < 4294967296) :
